@@ -1389,7 +1389,7 @@ package kafka
 //@   loop 0 invariant offsets != nil && (forall kid ref :: inmap(offsets, kid) ==> mapat(offsets, kid) != nil)
 //@   loop 1 invariant offsets != nil && (forall kid ref :: inmap(offsets, kid) ==> mapat(offsets, kid) != nil)
 
-//@ property C02 C17
+//@ property C02 C17 C11
 
 // Batch.readMessage moves the batch position only past what was delivered: by one record on success, and past the batch's
 // last offset only when the batch was read to its announced end (lengthRemain == 0: the compacted-tail case), never when
